@@ -82,10 +82,32 @@ input object; here the equality of recomputed and declared member lists is a CHE
 hd`, a Bool function of the input that runs the layout and applies `Spec.inSegment` to its result;
 `membersRecomputed_of_input`), not derived from structural hypotheses as `members_recomputed` does for flat segments.
 Non-vacuity: `exNestedM` (a PT_LOAD nested in a PT_LOAD).
+STEPNOWRAP FROM layoutNW (Props/C06Rest.lean): `resaveOkR_of_layoutNW` - ResaveOkR follows from ResaveOkC + C04's
+`layoutNW (preSave o) hd` + `layoutStartsB (preSave o) hd` for an object whose layout succeeds (implied by a successful
+save), with < 2^16 sections, no file-occupying section with index 0 and empty SHT_NULL-typed sections (all already in
+SaveInput / FlatDomain / NestedDomain).  The two formulations of the passes are bridged (`stepGap_eq_wsdGap`,
+`segStartOf_eq_init`, `preRes_eq_preSave`); `cursor + gap < 2^64` is wsdStepNW's first conjunct for every non-NULL
+member (`stepNoWrap_of_NW`; an empty SHT_NULL-typed member has gap 0 by StepOkC); `seg_start_pos <= cursor` is kept by
+the monotone cursor.  `layoutStartsB` (Bool, follows the layout like layoutNW: at the turn of every segment with
+members, seg_start_pos <= cursor OR every member is already generated so that no address is assigned) is NOT implied by
+layoutNW alone - a nested segment whose already generated first member is SHT_NULL-typed (or has index 0) starts at that
+section's arbitrary stored offset - and is discharged for flat objects (`layoutStartsB_of_flat`), for flat + fully
+nested segments (`layoutStartsB_of_mixed`, the NestedDomain), per segment when the generated first member occupies
+file space (`segStartLeB_of_occ`), and for ANY nesting (also partial) from layoutNW and the static condition `HeadOk`
+(Bool form `headOkB`): every segment has < 2^16 members and its first member is neither SHT_NULL-typed nor section 0
+(`layoutStartsB_of_static`, invariant `GenLe`: under layoutNW every generated proper section starts at or below the
+cursor; `save_twice_runs_static'`).  `save_twice_runs_small'` (Props/C06Small.lean): layoutNW itself replaced by the
+closed-form bounds `SmallObject o` (families/c04.py) - the no-wrap hypotheses of the second-save theorem are then plain
+bounds plus HeadOk.  `Compose.save_load_save_flat_small'`: save . load . save on flat segments with NoWrap64 of the saved
+object discharged from the closed-form bounds too (`C04.noWrap64_of_small_flat`); non-vacuity exTwoM.  Restated theorems: `save_twice_runs'` (ResaveOkC + layoutNW + layoutStartsB),
+`save_twice_runs_flat'` (ResaveOkC + layoutNW + layoutDomB), `Compose.save_load_save_flat'` (`ResaveDomainC` =
+ResaveDomain with ResaveOkC), `Compose.save_load_save_nested_input'` (NestedDomain + ResaveOkC); `stepNoWrap_of_layoutNW`
+shows the derived fact at a member.  Non-vacuity: exObj32, exTwoM, exNestedM.
 Not proved: `members_recomputed` for nested segments from structural hypotheses (a TLS section inside a PT_LOAD and a
 nested PT_TLS - the usual nesting - is dropped from the PT_LOAD's list by the loader, so the lists do differ there);
-ResaveOkR's no-wrap clause from `layoutNW` (it is a decidable hypothesis on the input, evaluated along the layout); a
-closed-form sufficient condition for `noWrap64InB` (e.g. "all sizes and addresses below 2^62").
+`layoutStartsB` when a nested segment's first member is SHT_NULL-typed or section 0 - there it DOES fail:
+`layoutNW_not_sufficient_witness` machine-checks a (model-level, outside the writer domain) object meeting layoutNW,
+ResaveOkC and every other hypothesis whose second save returns false, so layoutNW alone does not imply StepNoWrap.
 Correspondence: family load.
 Oracle: bytes of the first save == bytes of a second save of the same object; bytes of
 save(load(save(obj))) == bytes of save(obj).  Known open finding F13 (address-less NOBITS member with
@@ -169,8 +191,25 @@ THEOREMS = ["ElfioVerif.C06.save_twice_witness",
             "ElfioVerif.F17.save_load_save_tls_witness",
             "ElfioVerif.F17.save_load_save_tls_nested_witness",
             "ElfioVerif.F17.tls_witness_outside_MemberDomain",
-            "ElfioVerif.F17.tls_witness_domain_otherwise"]
-EXTRA_IMPORTS = ["ElfioVerif.Props.Compose", "ElfioVerif.Props.C06Runs", "ElfioVerif.Props.Compose2", "ElfioVerif.Props.F17"]
+            "ElfioVerif.F17.tls_witness_domain_otherwise",
+            "ElfioVerif.C06.stepNoWrap_of_NW",
+            "ElfioVerif.C06.segStartLeB_of_occ",
+            "ElfioVerif.C06.layoutStartsB_of_flat",
+            "ElfioVerif.C06.layoutStartsB_of_mixed",
+            "ElfioVerif.C06.segStartLeB_of_genLe",
+            "ElfioVerif.C06.layoutStartsB_of_static",
+            "ElfioVerif.C06.save_twice_runs_static'",
+            "ElfioVerif.C06.save_twice_runs_small'",
+            "ElfioVerif.C06.layoutNW_not_sufficient_witness",
+            "ElfioVerif.Compose.save_load_save_flat_small'",
+            "ElfioVerif.C06.resaveOkR_of_layoutNW",
+            "ElfioVerif.C06.stepNoWrap_of_layoutNW",
+            "ElfioVerif.C06.save_twice_runs'",
+            "ElfioVerif.C06.save_twice_runs_flat'",
+            "ElfioVerif.Compose.ResaveDomainC.toResaveDomain",
+            "ElfioVerif.Compose.save_load_save_flat'",
+            "ElfioVerif.Compose.save_load_save_nested_input'"]
+EXTRA_IMPORTS = ["ElfioVerif.Props.Compose", "ElfioVerif.Props.C06Runs", "ElfioVerif.Props.Compose2", "ElfioVerif.Props.F17", "ElfioVerif.Props.C06Rest", "ElfioVerif.Props.C06Small"]
 SITES = ["save_", "lsws", "lst_", "lseg", "wsd"]
 RULE = ("writer-domain programs (incl. thread-local data inside a PT_LOAD with/without nested PT_TLS) x 4 configurations: "
         "save, save again, reload (eager or lazy), save; plus "
